@@ -161,7 +161,13 @@ def framesSize : List Frame → Nat
   | [] => 0
   | f :: rest => f.text.length + 1 + framesSize rest
 
-def avail (st : RState) : Nat := st.src.length + st.unget.length + framesSize st.stack
+/-- ungot characters that do not read back as EOF (an ungot EOF, or byte 0xff, reads back as -1
+    and ends whatever loop receives it) -/
+def ungetSize : List Ch → Nat
+  | [] => 0
+  | c :: u => (if c = EOFc then 0 else 1) + ungetSize u
+
+def avail (st : RState) : Nat := st.src.length + ungetSize st.unget + framesSize st.stack
 
 /-- the innermost mark `unget_stack[unget_stack_ptr]` -/
 def topMark : List Nat → Nat
